@@ -67,6 +67,9 @@ def check_impl_fn(ctx, imp, f, opname):
                 if not (x[0] == "op" and mem.get(x[1]) in want):
                     return False, "component %d of the result is `%s` of %s, not of field %d" % (i, opname, mem.get(x[1]) if x[0] == "op" else x, i)
         return True, "tuple/%d positional" % n
+    from rules_struct import seq_container_kind
+    if seq_container_kind(st):
+        return check_seq(ctx, f, st, opname)
     if k == "array":
         return check_array(ctx, f, opname, paths, st["len"])
     if k == "adt" and (st["path"].endswith("::Vec") or st["path"].endswith("::Box")):
@@ -111,6 +114,45 @@ def check_impl_fn(ctx, imp, f, opname):
         else:
             return False, "performs %d member operations" % len(mem)
     return True, "delegate/leaf"
+
+
+def check_seq(ctx, f, st, opname):
+    """Vec<T>, Box<[T]>, [T; N]: decided on a modelled list of m elements (m = 0, 2, 3; a const generic length is
+    instantiated with m): whatever loop / iterator chain / helper builds the result, it must be a sequence of m items
+    whose k-th item is `opname` applied to element k, each element used exactly once."""
+    from rules_struct import run_on_self_list
+    import listmodel
+    for m in (0, 2, 3):
+        paths, err, I, lid = run_on_self_list(ctx, f, m, model_vecs=True, const_params={"N": m})
+        if err:
+            return None, "undecided: " + err
+        nret = 0
+        for p in paths:
+            if p.kind == "cut":
+                return None, "undecided: loop not resolved on %d elements (%s)" % (m, p.note)
+            if p.kind != "ret":
+                continue
+            nret += 1
+            mem = _member_results(p, opname)
+            v = p.value
+            vw = v if (v and v[0] == "agg" and v[1] == "slice" and v[2] in I.lists) else None
+            if vw is None:
+                return False, "with %d elements the result is %r, not a sequence built from the members' results" % (m, (v or ())[:3])
+            items = listmodel.items_of(I, p.st, vw)
+            if len(items) != m:
+                return False, "with %d elements the result has %d items" % (m, len(items))
+            used = []
+            for kk, x in enumerate(items):
+                want = ("%s.[%d]" % (lid, kk), "op:%s.[%d]" % (lid, kk), "ref:%s.[%d]" % (lid, kk))
+                src = mem.get(x[1]) if x[0] == "op" else None
+                if src not in want:
+                    return False, "item %d of the result is `%s` of %s, not of element %d" % (kk, opname, src if src else repr(x)[:60], kk)
+                used.append(src)
+            if len(mem) != m:
+                return False, "with %d elements `%s` is applied %d times" % (m, opname, len(mem))
+        if nret == 0:
+            return False, "never returns on a list of %d elements" % m
+    return True, "sequence positional (modelled list, m=0,2,3)"
 
 
 def check_array(ctx, f, opname, paths, arrlen="N"):
